@@ -245,7 +245,12 @@ func c02CompFlags(label string) (on, cn, sn bool) {
 const c02Text = "abcdefghijklmnopqrstuvwxyz0123456789\n"
 const c02ReasonText = "bye, and thanks for all the frames; "
 
+// c02Reason: n < 10000: n ASCII bytes; n >= 10000: n-10000 two-byte characters
+// (the limit of 123 is on bytes, not on characters).
 func c02Reason(n int) string {
+	if n >= 10000 {
+		return strings.Repeat("é", n-10000)
+	}
 	var sb strings.Builder
 	for sb.Len() < n {
 		sb.WriteString(c02ReasonText)
@@ -780,7 +785,7 @@ func c02HsRun(c *fw.Ctx, shard, nshards int) {
 }
 
 var c02CloseCodes = []int{-1, 0, 999, 1000, 1001, 1003, 1004, 1005, 1006, 1007, 1011, 1014, 1015, 1016, 2999, 3000, 4999, 5000, 65535}
-var c02CloseReasonLens = []int{0, 1, 123, 124, 125, 126, 1000}
+var c02CloseReasonLens = []int{0, 1, 123, 124, 125, 126, 1000, 10061, 10062, 10123}
 
 func c02ClosePrograms() [][]c02Op {
 	var out [][]c02Op
